@@ -1,6 +1,6 @@
 """C08 - header maps: accepted iff well-formed, and every field means what the wire said."""
 from lib.prov import Prov, show, is_call, subterms
-from lib.guards import conditions, normalize_bool_cond, outcomes, path_variants
+from lib.guards import conditions, normalize_bool_cond, outcomes, path_variants, cond_variants
 from lib.mapcodec import MapDecoder, NEXT, INTO_ITER, strip_into_iter
 from lib import codec
 from lib.evalterm import ev, Unknown
@@ -223,6 +223,14 @@ def _countersig(prog, md, effs):
                 a0 = a0[1] if a0[0] == "ref" else a0
                 if a0[0] == "tryok" and is_call(a0[1], codec.TRY_ARRAY) and a0[1][2] == (V,):
                     firsts["element 0 of the array"] = sorted(v)
+            elif ks[0] == "deref" and ks[1][0] == "field" and ks[1][2] == "0" and ks[1][1][0] == "variant" and ks[1][1][2] == "Some" \
+                    and is_call(ks[1][1][1], SLICE_FIRST):
+                # `match arr.first() { Some(Value::Bytes(_)) => .. }`: the same peek at element 0
+                a0 = ks[1][1][1][2][0]
+                while a0[0] in ("ref", "deref") or is_call(a0, "core::ops::deref::Deref::deref"):
+                    a0 = a0[1] if a0[0] != "call" else a0[2][0]
+                if a0[0] == "tryok" and is_call(a0[1], codec.TRY_ARRAY) and a0[1][2] == (V,):
+                    firsts["element 0 of the array"] = sorted(v)
             elif any(is_call(s, "core::ops::index::Index::index") for s in subterms(ks)):
                 firsts["other element: " + show(ks)[:60]] = sorted(v)
         if arg[0] == "aggr" and arg[1] == "ciborium::value::Value" and arg[2] == "Array":
@@ -376,6 +384,9 @@ def _text_rules(ctx, md):
             ctx.ob("R-3", "content-type-text:%s" % name, found[name], "content type text rule: %s" % what, where=fn.span)
 
 
+SLICE_FIRST = "core::slice::<impl [T]>::first"
+
+
 def _nonempty_guards(ctx, md):
     """crit and counter-signature arrays: reject iff empty"""
     fn, pv = md.fn, md.pv
@@ -384,10 +395,18 @@ def _nonempty_guards(ctx, md):
         if cname not in ("2", "7") or key != "err:UnexpectedItem@is_empty":
             continue
         conds = [normalize_bool_cond(c) for c in o["conds"]]
-        last = [c for c in conds if c][-1]
-        t, val = last
+        bools = [c for c in conds if c]
+        firsts = [cond_variants(ctx.prog, pv, c) for c in o["conds"] if c[0][0] == "discr" and is_call(c[0][1], SLICE_FIRST)]
+        if firsts and firsts[-1] and firsts[-1][1] == {"None"}:
+            # `match arr.first() { None => reject, .. }`
+            t, val = ("call", "is_empty", (firsts[-1][0][2][0],)), True
+        elif bools:
+            t, val = bools[-1]
+        else:
+            continue
         a = md.sym(t[2][0])
-        a = a[1] if a[0] == "ref" else a
+        while a[0] in ("ref", "deref") or is_call(a, "core::ops::deref::Deref::deref"):
+            a = a[1] if a[0] != "call" else a[2][0]
         if cname == "2":
             ok = val is True and a == ("field", ("variant", V, "Array"), "0")
         else:
